@@ -120,13 +120,24 @@ theorem static_totalOrder_total (vs : Array (Rat × Rat × Rat)) (cs : Array Con
 /-! ## post-conditions of `satisfy` / `solve` (the exit scans) -/
 
 /-- the slack the solver evaluates is the slack at the reported positions (non-zero scales) -/
-theorem rawSlack_positions (st : St) (ci : Nat) (hs : ∀ i : Nat, (st.vars[i]!).scale ≠ 0) :
+theorem rawSlack_positions (st : St) (ci : Nat)
+    (hs : ∀ i : Nat, i < st.vars.size → (st.vars[i]!).scale ≠ 0)
+    (hl : (st.cons[ci]!).l < st.vars.size) (hr : (st.cons[ci]!).r < st.vars.size) :
     rawSlack st ci =
       (st.vars[(st.cons[ci]!).r]!).scale * st.pos (st.cons[ci]!).r - (st.cons[ci]!).gap -
       (st.vars[(st.cons[ci]!).l]!).scale * st.pos (st.cons[ci]!).l := by
   unfold rawSlack
   simp only
-  rw [AdaptaVerif.Lemmas.VpscModel.scale_mul_pos st _ (hs _), AdaptaVerif.Lemmas.VpscModel.scale_mul_pos st _ (hs _)]
+  rw [AdaptaVerif.Lemmas.VpscModel.scale_mul_pos st _ (hs _ hr),
+    AdaptaVerif.Lemmas.VpscModel.scale_mul_pos st _ (hs _ hl)]
+
+open AdaptaVerif.Lemmas.VpscNonVac in
+/-- non-vacuity of `rawSlack_positions`: `nvSt` (Lemmas/VpscNonVac.lean; scales 1 and 2), constraint 0 -/
+example : ∃ (st : St) (ci : Nat), (∀ i : Nat, i < st.vars.size → (st.vars[i]!).scale ≠ 0) ∧
+    (st.cons[ci]!).l < st.vars.size ∧ (st.cons[ci]!).r < st.vars.size ∧ ci < st.cons.size :=
+  ⟨nvSt, 0, nvSt_scale, by simp [nvSt_cons, nvSt_vars], by simp [nvSt_cons, nvSt_vars], by simp [nvSt_cons]⟩
+open AdaptaVerif.Lemmas.VpscNonVac in
+example := rawSlack_positions nvSt 0 nvSt_scale (by simp [nvSt_cons, nvSt_vars]) (by simp [nvSt_cons, nvSt_vars])
 
 /-- **static_satisfy_post**: if the model's `Solver::satisfy()` returns normally, the reported positions
     are those of the final state and every constraint has slack ≥ ZERO_UPPERBOUND there (any start state). -/
@@ -408,13 +419,23 @@ theorem static_merge_moves_apart (st : St) (c dst src : Nat) (d : Rat)
     states by `#guard` below, not proved as invariants — hence a conditional theorem.) -/
 theorem static_quiescent_is_optimum (st : St) (hinv : IC st)
     (hw : ∀ i : Nat, i < st.vars.size → 0 < (st.vars[i]!).weight)
-    (hs : ∀ i : Nat, (st.vars[i]!).scale ≠ 0)
+    (hs : ∀ i : Nat, i < st.vars.size → (st.vars[i]!).scale ≠ 0)
     (hstat : BlockStationary st) (hq : Quiescent 0 st) :
     KKT (problemOf st) st.pos (lamList st) ∧
     IsOptimum (problemOf st) st.pos ∧
     ∀ y, IsOptimum (problemOf st) y → ∀ i, i < st.vars.size → y i = st.pos i :=
   AdaptaVerif.Props.C02Model.quiescent_is_optimum
     { st with inactive := Array.range st.cons.size } hinv hw hs hstat ⟨hq.holds, hq.sign⟩
+
+open AdaptaVerif.Lemmas.VpscNonVac in
+/-- non-vacuity of `static_quiescent_is_optimum`: every hypothesis holds on `nvSt` (read as a state of the
+    static solver: `IC` is `InvC` with every constraint allowed to be inactive) -/
+example : ∃ st : St, IC st ∧ (∀ i : Nat, i < st.vars.size → 0 < (st.vars[i]!).weight) ∧
+    (∀ i : Nat, i < st.vars.size → (st.vars[i]!).scale ≠ 0) ∧ BlockStationary st ∧ Quiescent 0 st :=
+  ⟨nvSt, InvC.toRange nvSt_inv, nvSt_weight, nvSt_scale, nvSt_stationary, nvSt_quiescent 0⟩
+open AdaptaVerif.Lemmas.VpscNonVac in
+example := static_quiescent_is_optimum nvSt (InvC.toRange nvSt_inv) nvSt_weight nvSt_scale nvSt_stationary
+  (nvSt_quiescent 0)
 
 /-! ## non-vacuity and witnesses (evaluated at every build) -/
 
